@@ -1,10 +1,14 @@
 #!/bin/sh
-# verify_seeded.sh <Cxx> <m1|m2> [extra props...] : confirm a delivered mutation in its scratch worktree
+# verify_seeded.sh <Cxx[rN]> <m1|m2> [extra props...] : confirm a delivered mutation in its scratch worktree
 # (compiles, existing suite green, demo fails with / passes without), then run the /verif checks against it.
 # Writes /verif/seeded/<Cxx>-<m>/ {patch.diff, demo.rs, NOTES.md, meta.json}.
+# PHASE=confirm : only the worktree part (safe to run for several worktrees in parallel)
+# PHASE=check   : only the /repo part (sequential; needs an earlier confirm)
 prop=$1; m=$2; shift 2; extra="$*"
+phase=${PHASE:-both}
 wt=/tmp/mut/$prop; d=$wt/deliver/$m
 id="$prop-$m"; out=/verif/seeded/$id; mkdir -p $out
+if [ $phase != check ]; then
 cd $wt || exit 2
 git checkout -q -- src; mkdir -p /tmp/mut/aside-$prop; mv tests/*.rs /tmp/mut/aside-$prop/ 2>/dev/null
 git apply --check $d/patch.diff || { echo "$id: patch does not apply"; exit 2; }
@@ -19,8 +23,12 @@ echo "$id suite: $suite"
 echo "$id demo with mutation: $demo_with"
 echo "$id demo without:       $demo_without"
 cp $d/patch.diff $d/demo.rs $d/NOTES.md $out/ 2>/dev/null
+printf '%s\n%s\n%s\n' "$suite" "$demo_with" "$demo_without" > $out/confirm.txt
+fi
+[ $phase = confirm ] && exit 0
+suite=$(sed -n 1p $out/confirm.txt); demo_with=$(sed -n 2p $out/confirm.txt); demo_without=$(sed -n 3p $out/confirm.txt)
 # now the checks
-git -C /repo apply $d/patch.diff || { echo "$id: does not apply to /repo"; exit 2; }
+git -C /repo apply $out/patch.diff || { echo "$id: does not apply to /repo"; exit 2; }
 res=""
 for p in $(echo $prop | cut -c1-3) $extra; do
   o=$(cd /verif && ./check $p quick 2>&1); c=$?
@@ -29,6 +37,7 @@ for p in $(echo $prop | cut -c1-3) $extra; do
   res="$res{\"check\":\"$p\",\"exit\":$c,\"first_signature\":$(python3 -c 'import json,sys;print(json.dumps(sys.argv[1]))' "$sig")},"
 done
 git -C /repo checkout -- .
+rm -f $out/confirm.txt
 python3 - "$id" "$prop" "$suite" "$demo_with" "$demo_without" "[${res%,}]" <<'PY'
 import json,sys
 id,prop,suite,dw,dwo,res=sys.argv[1:7]
